@@ -1057,6 +1057,25 @@ pub fn text_family(kind: usize, len: usize) -> Vec<u8> {
                 w += m;
             }
         }
+        12 => {
+            // self-similar 4-letter text: short stretches of itself repeated with single-letter changes,
+            // now and then a long repeat: most positions have many earlier candidates of different lengths
+            for _ in 0..64 {
+                v.push(b"acgt"[(next() % 4) as usize]);
+            }
+            while v.len() < len {
+                let long = v.len() > 4000 && next() % 400 == 0;
+                let l = if long { 300 + (next() as usize % 400) } else { 6 + (next() as usize % 30) };
+                let l = l.min(v.len() - 1);
+                let back = (next() as usize % 6000).min(v.len() - l);
+                let start = v.len() - l - back;
+                for i in 0..l {
+                    let b = v[start + i];
+                    v.push(b);
+                }
+                v.push(b"acgt"[(next() % 4) as usize]);
+            }
+        }
         10 => {
             // periodic data with periods 1..=8 (single distance code per block for some compressors)
             let mut period = 1;
